@@ -148,7 +148,7 @@ def base_lattice(a, b, n):
     return a + (np.arange(n) + 0.5) * h
 
 
-def sample_points(f, cfg, t, s, n=24):
+def sample_points(f, cfg, t, s, n=24, _want_jumps=False):
     """Deterministic point lattice on the family's domain plus points straddling each discontinuity that
     is located *from the returned fields*.  Returns (points, number of located jumps, solver calls used)."""
     import numpy as np
@@ -166,8 +166,11 @@ def sample_points(f, cfg, t, s, n=24):
         def F(x):
             calls[0] += 1
             return F0(x)
+        kw = {}
+        if "cell" in f:       # class C: stop refining at the internal cell that smears the jump
+            kw = {"tol": 2.0 * f["cell"](cfg, t, s) / (b - a), "accept": 0.1}
         jumps = oracle.locate_jumps(F, a, b, n=f.get("scan", 257), geometric=(a > 0 and b / a > 20),
-                                    max_jumps=f.get("njumps", 8))
+                                    max_jumps=f.get("njumps", 8), **kw)
         ncall = calls[0]
         L = b - a
         if "cell" in f:       # class-C solver: a discontinuity is smeared over one internal cell (documented resolution)
@@ -183,4 +186,6 @@ def sample_points(f, cfg, t, s, n=24):
             w = 2.0 * f["cell"](cfg, t, s)
             pts = [x for x in pts if all(not (j["lo"] - w < x < j["hi"] + w) for j in jumps)]
     pts = np.array(sorted(pts))
+    if _want_jumps:
+        return pts, jumps, ncall
     return pts, len(jumps), ncall
